@@ -369,7 +369,7 @@ def compare(o, parsed, immw=64, optional=(), decoder="llvm"):
     return "AGREE"
 
 
-PFX_LINE = r"^(lock|rep|repe|repne|wait|fwait|data16|data32|addr16|addr32|xacquire|xrelease|[cdefgs]s|notrack|rex64|bnd)\\b\\s*$"
+PFX_LINE = r"^(lock|rep|repe|repne|wait|fwait|data16|data32|addr16|addr32|xacquire|xrelease|[cdefgs]s|notrack|rex64|bnd)\b\s*$"
 
 
 def judge_lines(o, lines, consumed_ok, immw, optional, dec="llvm"):
@@ -432,7 +432,8 @@ def describe(o):
     dec = (f" {{k{o['k']}}}" if o["k"] else "") + (" {z}" if o["z"] else "") + (" {%s-sae}" % ["rn", "rd", "ru", "rz"][o["er"]] if o["er"] >= 0 else "") + (" {sae}" if o["sae"] else "")
     names = ["lock", "rep", "repne", "xacquire", "xrelease", "short", "long", "mod-mr", "mod-rm", "vex3", "vex", "evex", "rex"]
     opts = [n for j, n in enumerate(names) if o["opt"] >> j & 1]
-    if o.get("eo"): opts.append("optimize-for-size")
+    if o.get("eo", 0) & 1: opts.append("optimize-for-size")
+    if o.get("eo", 0) & 2: opts.append("predicted-jumps")
     return f"{o['m']}-bit: {' '.join(opts) + ' ' if opts else ''}{o['n']} {', '.join(opstr(x) for x in o['ops'])}{dec} -> {bytes(o['b']).hex()}"
 
 
